@@ -785,6 +785,72 @@ catalogue! {
     model = |s| !s.is_empty();
     class = |s| str_class(s, Some(1), None);
 
+    #[nutype(validate(len_char_min = 17), derive(Debug, Arbitrary))]
+    struct SMin17(String);
+    family = "string";
+    model = |s| s.chars().count() >= 17;
+    class = |s| str_class(s, Some(17), None);
+
+    #[nutype(validate(len_char_min = MIN_LEN + 1), derive(Debug, Arbitrary))]
+    struct SMinExpr(String);
+    family = "string";
+    model = |s| s.chars().count() >= 3;
+    class = |s| str_class(s, Some(3), None);
+
+    #[nutype(validate(len_char_min = MIN_LEN, len_char_max = MAX_LEN * 2), derive(Debug, Arbitrary))]
+    struct SMaxExpr(String);
+    family = "string";
+    model = |s| { let n = s.chars().count(); n >= 2 && n <= 12 };
+    class = |s| str_class(s, Some(2), Some(12));
+
+    #[nutype(validate(len_char_min = MAX_LEN, len_char_max = MAX_LEN), derive(Debug, Arbitrary))]
+    struct SExactConst(String);
+    family = "string";
+    model = |s| s.chars().count() == 6;
+    class = |s| str_class(s, Some(6), Some(6));
+
+    #[nutype(validate(not_empty, len_char_max = 1), derive(Debug, Arbitrary))]
+    struct SExactlyOne(String);
+    family = "string";
+    model = |s| s.chars().count() == 1;
+    class = |s| str_class(s, Some(1), Some(1));
+
+    #[nutype(sanitize(trim), validate(len_char_min = 1, len_char_max = 1), derive(Debug, Arbitrary))]
+    struct STrimExactlyOne(String);
+    family = "string";
+    model = |s| s.chars().count() == 1;
+    class = |s| str_class(s, Some(1), Some(1));
+
+    #[nutype(sanitize(uppercase, trim), validate(len_char_min = 3, len_char_max = 40), derive(Debug, Arbitrary))]
+    struct SUpperTrimWide(String);
+    family = "string";
+    model = |s| { let n = s.chars().count(); n >= 3 && n <= 40 };
+    class = |s| str_class(s, Some(3), Some(40));
+
+    #[nutype(validate(len_char_max = 300), derive(Debug, Arbitrary))]
+    struct SMax300(String);
+    family = "string";
+    model = |s| s.chars().count() <= 300;
+    class = |s| str_class(s, None, Some(300));
+
+    #[nutype(validate(len_char_min = 150), derive(Debug, Arbitrary))]
+    struct SMin150(String);
+    family = "string";
+    model = |s| s.chars().count() >= 150;
+    class = |s| str_class(s, Some(150), None);
+
+    #[nutype(sanitize(trim), validate(len_char_min = 200, len_char_max = 300), derive(Debug, Arbitrary))]
+    struct STrimMin200Max300(String);
+    family = "string";
+    model = |s| { let n = s.chars().count(); n >= 200 && n <= 300 };
+    class = |s| str_class(s, Some(200), Some(300));
+
+    #[nutype(validate(len_char_min = MAX_LEN * 50), derive(Debug, Arbitrary))]
+    struct SMinExpr300(String);
+    family = "string";
+    model = |s| s.chars().count() >= 300;
+    class = |s| str_class(s, Some(300), None);
+
     #[nutype(sanitize(trim), validate(not_empty, len_char_max = 2), derive(Debug, Arbitrary))]
     struct STrimNotEmptyMax2(String);
     family = "string";
